@@ -490,6 +490,20 @@ def m_has(spec, op):
     return any(m.get("op") == op for m in spec.get("mods", []))
 
 
+def endlabel_next_proxy_shapes():
+    """code inserted at the end of a block that has an end-of-block label (or a patch ending in a label), and the NEXT
+    block deleted with retarget_to_proxy - C02 only (known finding)"""
+    out = []
+    for funcs in (True, False):
+        for mods in ([ins("b1", 3, "mov"), dele("b2", 0, 2, proxy=True)], [ins("b0", 2, "mov"), dele("b1", 0, 3, proxy=True)],
+                     [ins("b1", 3, "trail_label"), dele("b2", 0, 2, proxy=True)]):
+            spec = text_layout("o", funcs=funcs)
+            spec["sections"][0]["blocks"][0]["esyms"] = ["e0"]
+            spec["mods"] = copy.deepcopy(mods)
+            out.append(("endlabel-next-proxy/%s/%s" % ("funcs" if funcs else "nofuncs", mods_name(mods)), spec))
+    return out
+
+
 def cfi_layout(kind="one"):
     """CFI procedures over the text layout.
     one:  a single procedure over b0..b2 with state changes inside b1
